@@ -19,8 +19,15 @@ import (
 	"verif/gen"
 )
 
+// Variant is one process environment under which the whole index list is executed.
+type Variant struct {
+	Name string
+	Env  []string
+}
+
 // Prop describes one registered property check.
 type Prop struct {
+	Variants []Variant // default: one unnamed variant
 	ID      string
 	N       uint64 // universe size: thorough runs [0,N)
 	Quick   int    // number of seed-chosen indices in the quick tier
@@ -330,16 +337,26 @@ func check(propID, tier string, mode int, from, to uint64) int {
 		fmt.Println("INCONCLUSIVE: worker binary missing:", bin)
 		return 2
 	}
-	for k := 0; k < nw; k++ {
-		var mine []uint64
-		for j := k; j < len(idx); j += nw {
-			mine = append(mine, idx[j])
+	variants := p.Variants
+	if len(variants) == 0 {
+		variants = []Variant{{}}
+	}
+	results = make([]segResult, nw*len(variants))
+	sem := make(chan struct{}, nw)
+	for vi, v := range variants {
+		for k := 0; k < nw; k++ {
+			var mine []uint64
+			for j := k; j < len(idx); j += nw {
+				mine = append(mine, idx[j])
+			}
+			wg.Add(1)
+			go func(slot, k int, v Variant, mine []uint64) {
+				defer wg.Done()
+				sem <- struct{}{}
+				defer func() { <-sem }()
+				results[slot] = runWorkerSegments(p, bin, tier, seed, workDir, slot, mine, v)
+			}(vi*nw+k, k, v, mine)
 		}
-		wg.Add(1)
-		go func(k int, mine []uint64) {
-			defer wg.Done()
-			results[k] = runWorkerSegments(p, bin, tier, seed, workDir, k, mine)
-		}(k, mine)
 	}
 	wg.Wait()
 
@@ -464,7 +481,7 @@ func clip(s string, n int) string {
 }
 
 // runWorkerSegments runs one worker over its indices, restarting after a crash or stall.
-func runWorkerSegments(p *Prop, bin, tier string, seed uint64, dir string, k int, mine []uint64) segResult {
+func runWorkerSegments(p *Prop, bin, tier string, seed uint64, dir string, k int, mine []uint64, v Variant) segResult {
 	var res segResult
 	res.sum.Hist = map[string]int{}
 	seg := 0
@@ -482,7 +499,8 @@ func runWorkerSegments(p *Prop, bin, tier string, seed uint64, dir string, k int
 		cmd.Stdout = errf
 		cmd.Stderr = errf
 		cmd.Env = append(os.Environ(), p.Env...)
-		cmd.Env = append(cmd.Env, "VERIF_WORKDIR="+dir, fmt.Sprintf("VERIF_WORKER=%d", k))
+		cmd.Env = append(cmd.Env, v.Env...)
+		cmd.Env = append(cmd.Env, "VERIF_WORKDIR="+dir, fmt.Sprintf("VERIF_WORKER=%d", k), "VERIF_VARIANT="+v.Name)
 		if err := cmd.Start(); err != nil {
 			res.sum.Inconcl++
 			return res
@@ -728,7 +746,7 @@ func replay(path string) int {
 	}
 	dir, _ := os.MkdirTemp(filepath.Join(verifDir, "work"), "replay")
 	defer os.RemoveAll(dir)
-	res := runWorkerSegments(p, workerBin(p.Build), r.Tier, r.Seed, dir, 0, []uint64{r.Failure.Idx})
+	res := runWorkerSegments(p, workerBin(p.Build), r.Tier, r.Seed, dir, 0, []uint64{r.Failure.Idx}, variantOf(p, r.Failure.Sub))
 	hit := false
 	for _, f := range res.failures {
 		bb, _ := json.MarshalIndent(f, "", " ")
@@ -830,4 +848,14 @@ func refAgrees(f *Failure) bool {
 		return true
 	}
 	return false
+}
+
+// variantOf finds the variant a recorded failure ran under (its name prefixes Sub).
+func variantOf(p *Prop, sub string) Variant {
+	for _, v := range p.Variants {
+		if v.Name != "" && strings.HasPrefix(sub, v.Name+"|") {
+			return v
+		}
+	}
+	return Variant{}
 }
